@@ -25,7 +25,7 @@ SPEC = {
              "with at least one non-zero entry or a boundary construction"),
     "boundscheck": {"quick": False, "thorough": True},
     "case_timeout": 120.0,
-    "deciding_monitors": ["Prox.__call__:contract", "Prox.__call__:certified"],
+    "deciding_monitors": ["Prox.__call__:contract", "Prox.__call__:certified", "in:layout:F", "in:layout:strided", "in:complex64", "in:float32"],
     "assumptions": ["BoxConstraint is only defined for real data (complex inputs are skipped "
                     "by the certificate)", "UnitaryTransform is certified only when the given "
                     "operator is verified unitary on the shape"],
